@@ -46,7 +46,7 @@ class Contract:
     def __init__(self, target, params=None, requires=(), ensures=(), raises=None, loops=None, handlers=None, globals=None,
                  local_sorts=None, props=(), assumptions=(), note='', cut=None, max_paths=4000, replay=None,
                  on_outcomes=None, comprehensions=None, ghost_init=None, store_handler=None, truthy_handlers=None,
-                 raise_order_free=False, havoc=None):
+                 raise_order_free=False, havoc=None, registry_ext=None):
         self.target = target
         self.params = dict(params or {})
         self.requires = list(requires)
@@ -68,6 +68,7 @@ class Contract:
         self.store_handler = store_handler
         self.truthy_handlers = dict(truthy_handlers or {})
         self.havoc = havoc
+        self.registry_ext = dict(registry_ext or {})
 
     @property
     def name(self):
@@ -191,6 +192,8 @@ def model_vars_of(params, prefix=''):
         elif v.sort.startswith('opt:'):
             out[prefix + k + '.isnone'] = v.t[0]
             out.update(model_vars_of({k: v.t[1]}, prefix))
+        elif v.x and isinstance(v.x, dict) and 'model_vars' in v.x:
+            for f, t in v.x['model_vars'].items(): out[prefix + k + '.' + f] = t
         elif v.sort == 'rec': out.update(model_vars_of(v.x, prefix + k + '.'))
         elif v.sort == 'map':
             for f, pr in v.x.get('pres', {}).items(): out[prefix + k + '.has_' + f] = pr
@@ -206,6 +209,9 @@ def verify(contract, registry, src_root='/repo'):
     t0 = time.time()
     try:
         E.load_exception_hierarchy(src_root)
+        if contract.registry_ext:
+            registry = registry.copy()
+            for k, d in contract.registry_ext.items(): getattr(registry, k).update(d)
         x = E.Executor(src_root, contract, registry)
         rep.source_sha = hashlib.sha256(ast.unparse(x.fn).encode()).hexdigest()[:16]
         outs = x.run()
